@@ -116,6 +116,14 @@ func c13Addr(w *W) {
 	defer a.Close()
 	defer b.Close()
 	laddr := w.Addr(tran)
+	// a listener bound to the wildcard address: its pipes still describe the
+	// connection (the address that was dialled), not the listener
+	wildcard := false
+	if (tran == "tcp" || tran == "tls+tcp" || tran == "ws" || tran == "wss") && w.Choose(simrt.SShape, 3) == 0 {
+		wildcard = true
+		laddr = strings.Replace(laddr, "127.0.0.1", []string{"0.0.0.0", "[::]"}[w.Choose(simrt.SShape, 2)], 1)
+		w.SetShape("wildcard", true)
+	}
 	lp, dp, l, d, ok := c13Collect(w, a, b, laddr, w.EpOpts(laddr, true, nil), w.EpOpts(laddr, false, nil))
 	if !ok || !c13CheckEndpoints(w, tran, lp, dp, l, d) {
 		return
@@ -130,6 +138,9 @@ func c13Addr(w *W) {
 			return
 		}
 		want := NetKey(l.Address())
+		if wildcard {
+			w.Probe("wildcard-listener")
+		}
 		clientOK := true
 		switch tran {
 		case "sim", "simipc":
